@@ -37,10 +37,10 @@ LEVEL_NOTE = (
     "The theorem is about the model `emit` and about ProtoExec; the step from proto-commands to assembled "
     "instructions is C03's `assemble_simulates` — composed empirically by the ProtoExec-vs-Executor stream, the formal "
     "bridge between the two label-level semantics is not proved (partial on that point only). new_register()/"
-    "measure(store_array=False) are top-level statements in the theorem (TopOK). Open findings F41 (host handles "
-    "keep stale values across flushes) and F42 (new_register() registers clobbered by a later subroutine's scratch "
-    "registers) are host-/assembler-level and outside the label-level model; shared-memory arrays alias the "
-    "controller's arrays (F25).")
+    "measure(store_array=False) are top-level statements in the theorem (TopOK). Open finding F41 (host handles "
+    "keep stale values across flushes) is host-level and outside the label-level model; F42 (new_register() "
+    "registers clobbered by a later subroutine's scratch registers) is fixed on the SDK side (reserved registers "
+    "passed to the assembler); shared-memory arrays alias the controller's arrays (F25).")
 TECHNIQUE = ("Lean 4 proof (verified-compiler style: simulation relation, structural induction over the host AST, "
              "induction over flush segments) + syntactic differential correspondence with the real SDK builder + "
              "semantic cross-checks of both semantics + model-free end-to-end oracle")
